@@ -191,12 +191,12 @@ def edits(t, rng):
 
 def gen_cases(tier, seed):
     rng = random.Random(f"c13-{seed}")
-    n, nproc, nsend = (150, 6, 12) if tier == "quick" else (6000, 120, 48)
+    n, nproc, nsend = (150, 6, 12) if tier == "quick" else (4500, 70, 48)
     cases = [{"mode": "stab", "seed": rng.getrandbits(40)} for _ in range(n)]
     cases += [{"mode": "proc", "seed": rng.getrandbits(40)} for _ in range(nproc)]
     for i in range(4 if tier == "quick" else 60):
         cases.append({"mode": "resend", "seed": rng.getrandbits(40), "tc": i % 2 == 1})
-    for i in range(6 if tier == "quick" else 72):
+    for i in range(6 if tier == "quick" else 48):
         cases.append({"mode": "rebuild", "seed": rng.getrandbits(40), "variant": ["subdir", "plain", "imported", "diamond", "subdir", "importer_of_consts"][i % 6],
                       "cli": i % 4 != 3})
     for i in range(nsend):
